@@ -15,12 +15,17 @@ EXTENDS Addr, TLC
 
 (***************************** delivery monitor ****************************)
 \* acc: accepted messages [src, sa, da, pgn, data, cm]; got: <<i, node, tag>>; eom: <<i, tag>>
-DmInit == [acc |-> <<>>, got |-> {}, eom |-> {}, nsub |-> 0, refused |-> {}]
+DmInit == [acc |-> <<>>, got |-> {}, eom |-> {}, nsub |-> 0, refused |-> {}, dll |-> 21]
+DmInit22 == [DmInit EXCEPT !.dll = 22]
+\* the end-of-message acknowledge frame reported to the originator, per data link layer
+EomaOk(dll, d, size, pgn) ==
+    IF dll = 21 THEN d = CmEoma(size, NumPackets21(size), pgn)
+    ELSE Len(d) >= 12 /\ d[1] % 16 = FC_EOMA /\ Rd3(d, 2) = size /\ Rd3(d, 5) = NumSegments22(size) /\ Rd3(d, 10) = pgn
 
 DmAccept(dm, n, a) ==
     LET da == IF a.ps = GLOBAL \/ IsPdu2(a.pf) THEN GLOBAL ELSE a.ps
         m == [src |-> n, sa |-> a.sa, da |-> da, pgn |-> PgnOf(a.dp, a.pf, a.ps), data |-> a.data,
-              cm |-> (Len(a.data) > 8 /\ da # GLOBAL), sub |-> dm.nsub + 1]
+              cm |-> (Len(a.data) > (IF dm.dll = 21 THEN 8 ELSE 60) /\ da # GLOBAL), sub |-> dm.nsub + 1]
     IN [dm EXCEPT !.acc = Append(@, m), !.nsub = @ + 1]
 \* a submission that send_pgn refused (returned False)
 DmRefuse(dm) == [dm EXCEPT !.nsub = @ + 1, !.refused = @ \cup {dm.nsub + 1}]
@@ -42,7 +47,7 @@ DmDeliver(dm, cfgs, n, h) ==
          LET cand == {i \in 1..Len(dm.acc) :
                         /\ dm.acc[i].src = n /\ dm.acc[i].cm
                         /\ dm.acc[i].da = h.sa /\ dm.acc[i].pgn = h.pgn
-                        /\ h.data = CmEoma(Len(dm.acc[i].data), NumPackets21(Len(dm.acc[i].data)), dm.acc[i].pgn)
+                        /\ EomaOk(dm.dll, h.data, Len(dm.acc[i].data), dm.acc[i].pgn)
                         /\ <<i, h.tag>> \notin dm.eom}
          IN IF cand = {} THEN [dm |-> dm, bad |-> {"end-of-message notification without a completed transfer"}]
             ELSE LET i == CHOOSE x \in cand : \A y \in cand : x <= y
